@@ -13,8 +13,9 @@ T = "JPV.Tables."
 
 PROPS = {
     "C01": dict(
-        modules=["JPV.Props.C01", "JPV.Props.C07", "JPV.Props.C13"],
+        modules=["JPV.Props.C01", "JPV.Props.C07", "JPV.Props.C13", "JPV.Props.C03"],
         theorems=["JPV.Props.C01", "JPV.Props.C01_no_descendant", "JPV.Props.C01_child_concat", "JPV.Props.compile_then_find",
+                  "JPV.Props.C01_end_to_end",
                   "JPV.Props.eval_correct", "JPV.Props.C07_slice", "JPV.Props.C07_index"],
         tables=[T + "env_defaults_model", T + "writes_benign"],
         explore=ce.explore_c01,
